@@ -9,15 +9,17 @@ Open Scope Z_scope.
 
 Definition FW (s : state) : Prop := W s /\ Forall (Fr (s_heap s)) (units s).
 
-(* the contract of the freshness theorem: setters only inside a transaction; molecules are not made from (copy, substructure)
-   the intermediate state of an open transaction; union and the patch step of Standardize are not covered (_partial) *)
+(* the contract of the freshness theorem: setters only inside a transaction; no copy() of the intermediate state of an open
+   transaction (substructures are fine: everything in them is recalculated); union, split and the patch step of Standardize
+   are not covered (_partial) *)
 Definition in_txn (o : mobj) : Prop := o_backup o <> None.
 Definition fop_ok (s : state) (p : op) : Prop :=
   match p with
   | OSetCharge _ _ | OSetRadical _ _ => in_txn (s_cur s)
-  | OCopy | OSub _ => o_backup (s_cur s) = None
+  | OCopy => o_backup (s_cur s) = None
   | OUnion _ _ => False
   | OPatch _ _ _ _ => False
+  | OSplit => False
   | _ => True
   end.
 
@@ -112,6 +114,32 @@ Proof. intros Fs G Fa. apply Fr_lift; auto. apply Fa; [apply (W_cur s (proj1 Fs)
 Lemma Fr_cache h o c : Fr h o -> Fr h (set_cache o c).
 Proof. apply Fr_same; reflexivity. Qed.
 
+Lemma Fr_sub_step ats s : FW s -> Forall (Fr (s_heap (fst (sub_step ats s)))) (units (fst (sub_step ats s))).
+Proof.
+  intros Fs. pose proof Fs as [Ws Ff]. pose proof (W_cur s Ws) as Uc. pose proof (FW_cur s Fs) as Fc. unfold sub_step.
+    destruct s as [h o others]. cbn [s_heap s_cur s_others] in *.
+  destruct (substructure ats h o) as [[[h2 o2] e]|err] eqn:E; [|exact Ff].
+  destruct (sub_spec _ _ _ _ _ _ (proj1 (proj1 Uc)) E) as [h1 [sub0 [X [I0 [C0 [B0 [Cs0 [Fr0 R]]]]]]]].
+  pose proof (fix_both_good h1 sub0 I0) as G. rewrite R in G. destruct G as [I2 [HL [Un [Rf Bk]]]].
+  assert (hext h h2) as X2.
+  { destruct X as [L E1]. split; [destruct HL; lia|]. intros r Hr. rewrite Un; [apply E1; exact Hr | lia |].
+    intros Hi. apply Fr0 in Hi. lia. }
+  pose proof (rest_fresh (mkS h o others) h2 Ws Ff (proj1 X2) (fun r Hr _ => proj2 X2 r Hr)) as RF. cbn [s_cur s_others] in RF.
+  assert (Fr h2 o) as Fo by (apply (Fr_ext h); [exact Fc | intros r Hr; apply X2; eapply U_lt; eauto]).
+  destruct e as [e|]; cbn [fst s_heap].
+  + apply Forall_units_split. split; [exact Fo|]. rewrite Forall_forall. exact RF.
+  + rewrite units_others. apply Forall_app. split; [|apply Forall_app; split].
+    * constructor; [exact Fo|]. rewrite Forall_forall. intros u Hu. apply RF. apply in_or_app. now left.
+    * (* the new molecule: everything was recalculated *)
+      assert (shadow o2 = []) as -> by (unfold shadow; now rewrite Bk, B0). constructor; [|constructor].
+      destruct (fix_hyd h1 sub0 I0) as [h3 [o3 [E3 [I3 [_ [C3 [B3 [Bo3 R3]]]]]]]].
+      { intros n a Ha. left. unfold todo. rewrite Cs0. eapply zget_In_keys; eauto. }
+      unfold seq in R. rewrite E3 in R. unfold fix_stereo, read, ok in R. inversion R; subst h2 o2.
+      apply Fr_of_OK; [simpo; congruence | simpo; exact C3 | eapply bondsOK_view; [|exact Bo3]; reflexivity|].
+      intros x a Ha. simpo. destruct (R3 x a Ha) as [[l [Z1 Z2]] [l' [Y1 Y2]]]. split; [exists l | exists l']; split; auto.
+    * rewrite Forall_forall. intros u Hu. apply RF. apply in_or_app. now right.
+Qed.
+
 Theorem step_FW s p : FW s -> op_ok s p -> fop_ok s p -> FW (fst (step s p)).
 Proof.
   intros Fs Ok Fk. pose proof Fs as [Ws Ff]. split; [now apply step_W|]. pose proof (W_cur s Ws) as Uc. pose proof (FW_cur s Fs) as Fc.
@@ -135,28 +163,12 @@ Proof.
     + assert (shadow b = []) as -> by (subst b; reflexivity). constructor; [|constructor].
       apply (Fr_view h o); [exact V | subst b; reflexivity | subst b; simpo; symmetry; exact Fk | exact Fc].
     + rewrite Forall_forall. intros u Hu. apply RF. apply in_or_app. now right.
-  - (* substructure *)
-    destruct s as [h o others]. cbn [s_heap s_cur s_others] in *.
-    destruct (substructure ats h o) as [[[h2 o2] e]|err] eqn:E; [|exact Ff].
-    destruct (sub_spec _ _ _ _ _ _ (proj1 (proj1 Uc)) E) as [h1 [sub0 [X [I0 [C0 [B0 [Cs0 [Fr0 R]]]]]]]].
-    pose proof (fix_both_good h1 sub0 I0) as G. rewrite R in G. destruct G as [I2 [HL [Un [Rf Bk]]]].
-    assert (hext h h2) as X2.
-    { destruct X as [L E1]. split; [destruct HL; lia|]. intros r Hr. rewrite Un; [apply E1; exact Hr | lia |].
-      intros Hi. apply Fr0 in Hi. lia. }
-    pose proof (rest_fresh (mkS h o others) h2 Ws Ff (proj1 X2) (fun r Hr _ => proj2 X2 r Hr)) as RF. cbn [s_cur s_others] in RF.
-    assert (Fr h2 o) as Fo by (apply (Fr_ext h); [exact Fc | intros r Hr; apply X2; eapply U_lt; eauto]).
-    destruct e as [e|]; cbn [fst s_heap].
-    + apply Forall_units_split. split; [exact Fo|]. rewrite Forall_forall. exact RF.
-    + rewrite units_others. apply Forall_app. split; [|apply Forall_app; split].
-      * constructor; [exact Fo|]. rewrite Forall_forall. intros u Hu. apply RF. apply in_or_app. now left.
-      * (* the new molecule: everything was recalculated *)
-        assert (shadow o2 = []) as -> by (unfold shadow; now rewrite Bk, B0). constructor; [|constructor].
-        destruct (fix_hyd h1 sub0 I0) as [h3 [o3 [E3 [I3 [_ [C3 [B3 [Bo3 R3]]]]]]]].
-        { intros n a Ha. left. unfold todo. rewrite Cs0. eapply zget_In_keys; eauto. }
-        unfold seq in R. rewrite E3 in R. unfold fix_stereo, read, ok in R. inversion R; subst h2 o2.
-        apply Fr_of_OK; [simpo; congruence | simpo; exact C3 | eapply bondsOK_view; [|exact Bo3]; reflexivity|].
-        intros x a Ha. simpo. destruct (R3 x a Ha) as [[l [Z1 Z2]] [l' [Y1 Y2]]]. split; [exists l | exists l']; split; auto.
-      * rewrite Forall_forall. intros u Hu. apply RF. apply in_or_app. now right.
+  - now apply Fr_sub_step.
+  - now apply Fr_sub_step.
+  - destruct (negb (subset_z ats (keys (o_atoms (s_cur s))))); [exact Ff|].
+    destruct (filter (fun n => negb (zmem n ats)) (keys (o_atoms (s_cur s)))); [exact Ff | now apply Fr_sub_step].
+  - destruct (negb (subset_z ats (keys (o_adj (s_cur s))))); [exact Ff|].
+    destruct (aug_grow (o_adj (s_cur s)) ats deep); [now apply Fr_sub_step | exact Ff].
   - (* swap *)
     destruct s as [h o [|a t]]; [exact Ff|]. cbn [fst s_heap] in *. rewrite units_others in *.
     apply Forall_app in Ff. destruct Ff as [F1 F2]. apply Forall_app in F2. destruct F2 as [F2 F3].
